@@ -397,9 +397,16 @@ fn judge_round(
     let mut idx: BTreeMap<u32, Entity> = initial.iter().map(|e| (e.id(), *e)).collect();
     for e in &created {
         if !seen.insert(*e) {
+            if prop == "C17" {
+                // duplicate handles are C01's / C10's subject; keep going so the recycling oracle can see the leak
+                continue;
+            }
             return Err((uniq_tag, format!("handle {:?} was returned twice (to two threads, or it equals an earlier handle)", e)));
         }
         if let Some(o) = idx.insert(e.id(), *e) {
+            if prop == "C17" {
+                continue;
+            }
             return Err((uniq_tag, format!("two entities that are not yet dead share index {}: {:?} and {:?}", e.id(), o, e)));
         }
     }
@@ -436,7 +443,7 @@ fn judge_round(
     // quiescent point: allocator invariants before maintain
     let occ: BTreeSet<u32> = idx.keys().cloned().collect();
     let pd: BTreeSet<u32> = delete_requested.iter().map(|e| e.id()).collect();
-    crate::model::check_allocator(&world.entities().verif_snapshot(), &occ, &pd).map_err(|(_, m)| ("C10", format!("after the concurrent phase: {}", m)))?;
+    crate::model::check_allocator(&world.entities().verif_snapshot(), &occ, &pd).map_err(|(p0, m)| (if p0 == "C17" && prop == "C17" { "C17" } else { "C10" }, format!("after the concurrent phase: {}", m)))?;
     shared.exec_log.lock().unwrap().clear();
     world.maintain();
     let alive_now: BTreeSet<Entity> = {
@@ -500,7 +507,7 @@ fn judge_round(
         }
     }
     let occ: BTreeSet<u32> = expect.iter().map(|e| e.id()).collect();
-    crate::model::check_allocator(&world.entities().verif_snapshot(), &occ, &BTreeSet::new()).map_err(|(_, m)| ("C10", format!("after maintain: {}", m)))?;
+    crate::model::check_allocator(&world.entities().verif_snapshot(), &occ, &BTreeSet::new()).map_err(|(p0, m)| (if p0 == "C17" && prop == "C17" { "C17" } else { "C10" }, format!("after maintain: {}", m)))?;
     // next round starts from the new live set
     stale.extend(delete_requested.iter().cloned());
     *initial = expect.into_iter().collect();
